@@ -260,6 +260,7 @@ package ha
 //@ func (c *FailoverController) initiateFailover
 //@   modifies c.state
 //@   ensures c.currentRole == locked(c.currentRole)
+//@   ensures c.failoverRunning == locked(c.failoverRunning)
 //@   ensures err != nil ==> c.state == locked(c.state) && (locked(c.currentRole) == RoleActive || locked(c.failoverRunning))
 //@   ensures err == nil ==> c.state == FailoverStateInProgress && locked(c.currentRole) != RoleActive && !locked(c.failoverRunning)
 
@@ -269,6 +270,9 @@ package ha
 //@   modifies c.state, c.currentRole, c.lastRoleChange, c.failoversInitiated, c.failoversCompleted, c.failoverRunning
 //@   ensures err == nil ==> c.state != FailoverStateInProgress || c.failoverRunning
 //@   ensures err != nil && c.failoversInitiated != old(c.failoversInitiated) ==> c.state != FailoverStateInProgress
+// a refused or failed command as well: in progress only while an invocation is carrying the
+// failover out, or untouched because this node is already active
+//@   ensures err != nil ==> c.state != FailoverStateInProgress || c.failoverRunning || c.currentRole == RoleActive
 
 // executeFailover: the role changes only on the path where the callback returned nil (that
 // path alone increments failoversCompleted, by exactly one), and the in-progress state is
